@@ -85,6 +85,8 @@ func (s *Session) RenderVal(x interface{}) string {
 			return "nil-node"
 		}
 		return v.str
+	case string:
+		return "S" + strconv.Quote(v)
 	}
 	if s.Render != nil {
 		if str, ok := s.Render(x); ok {
